@@ -10,11 +10,11 @@ import (
 	"crypto/sha256"
 	"errors"
 	"fmt"
-	"os"
 	ds "github.com/ipfs/go-datastore"
 	dsq "github.com/ipfs/go-datastore/query"
 	dssync "github.com/ipfs/go-datastore/sync"
 	"google.golang.org/protobuf/proto"
+	"os"
 	"sort"
 	"strconv"
 	"strings"
@@ -739,4 +739,9 @@ func dualCheck(prop, part string, ops []string) verifsim.Check[duSc] {
 func classPublic(a ma.Multiaddr) bool {
 	s := a.String()
 	return strings.HasPrefix(s, "/ip4/8.") || strings.HasPrefix(s, "/ip6/2001:4860:")
+}
+
+// the same generator and oracle driven by Go's coverage-guided fuzzer (thorough tier)
+func FuzzVerif_C15_Dual(f *testing.F) {
+	verifsim.RunFuzz(f, dualCheck("C15", "dual", []string{"putvalue", "provide", "getvalue", "findpeer", "findprov", "wanlookup"}), "TestVerif_C15_Dual")
 }
